@@ -113,6 +113,8 @@ type Enc struct {
 	spec     map[string]string        // parameter name -> type string (from the property config)
 	litOf       map[string]string // SMT symbol of a string literal -> its Go value
 	sortedByAdded bool
+	birth       map[string][2]string // array incarnation -> allocation watermarks (own, callee) no later than which it came into being
+	cellVars    map[string]ssa.Value
 	storeOrd    map[*ssa.Store]int
 	callRegion  int
 	siteOrd     map[*ssa.Call]int
@@ -203,7 +205,8 @@ func (e *Enc) wellFormedLeaf(term string, l leaf, t types.Type) {}
 func (e *Enc) wellFormedVal(v *Val) {
 	switch u := v.typ.Underlying().(type) {
 	case *types.Slice:
-		e.assume(and(app("<=", "0", v.c[1]), app("<=", "0", v.c[2]), app("<=", v.c[2], v.c[3]), app("<=", v.c[3], "72057594037927936")))
+		e.assume(and(app("<=", "0", v.c[1]), app("<=", "0", v.c[2]), app("<=", v.c[2], v.c[3]), app("<=", v.c[3], "72057594037927936"),
+			imp(eq(v.c[0], "null"), eq(v.c[3], "0"))))
 	case *types.Basic:
 		if u.Info()&types.IsInteger != 0 {
 			lo, hi := intRange(u)
@@ -288,6 +291,32 @@ func (e *Enc) obligeClause(kind string, c *Clause, pos token.Pos, goal string) *
 
 // ---------------- heap arrays ----------------
 
+// stampBirth: every array incarnation current in st whose birth is not yet recorded came into being no later than now.
+func (e *Enc) stampBirth(st *State) {
+	wm, cw := e.watermark(st), e.calleeWatermark(st)
+	for n, sym := range st.m {
+		if strings.HasPrefix(n, "G|") {
+			continue
+		}
+		if _, ok := e.birth[sym]; !ok {
+			e.birth[sym] = [2]string{wm, cw}
+		}
+	}
+}
+
+// birthOf: the watermarks bounding the objects a value loaded from the given select-term can designate.
+func (e *Enc) birthOf(term string, st *State) (string, string) {
+	if strings.HasPrefix(term, "(select |") {
+		rest := term[len("(select "):]
+		if i := strings.Index(rest[1:], "|"); i >= 0 {
+			if b, ok := e.birth[rest[:i+2]]; ok {
+				return b[0], b[1]
+			}
+		}
+	}
+	return e.watermark(st), e.calleeWatermark(st)
+}
+
 // touch materialises the frame axiom of an array incarnation the first time the incarnation is used.
 func (e *Enc) touch(sym string) string {
 	if ax, ok := e.pendingFrame[sym]; ok {
@@ -365,6 +394,14 @@ func (e *Enc) havocAllExcept(st *State, alsoWritten map[string]bool) {
 	for a, ref := range pre.unesc {
 		t := a.Type().Underlying().(*types.Pointer).Elem()
 		e.preserve(&pre, st, ref, t, alsoWritten)
+	}
+	{
+		// unknown code may allocate: its objects exist afterwards
+		lo := e.calleeWatermark(&pre)
+		hi := e.fresh("cw", "Int")
+		e.assume(app(">=", hi, lo))
+		arrSorts["G|cw"] = "Int"
+		st.m["G|cw"] = hi
 	}
 }
 
@@ -833,6 +870,8 @@ func (e *Enc) mergeStates(b *ssa.BasicBlock, preds []*ssa.BasicBlock) State {
 			ps := e.endState[p]
 			if _, has := ps.m[n]; !has && n == "G|wm" {
 				incs = append(incs, "|alloc!0|")
+			} else if !has && n == "G|cw" {
+				incs = append(incs, "(+ |alloc!0| 1000000000)")
 			} else if !has && strings.HasPrefix(n, "G|") {
 				incs = append(incs, "false")
 			} else {
@@ -886,6 +925,7 @@ func (e *Enc) epochArr(st *State, name, fullSort string) string {
 	}
 	sym := e.declare(nm, fullSort)
 	arrSorts[name] = fullSort
+	e.birth[sym] = [2]string{e.watermark(st), e.calleeWatermark(st)}
 	if pi, ok := e.preserved[st.epoch]; ok {
 		for _, p := range pi.prefixes {
 			if strings.HasPrefix(name, p) && !pi.except[name] {
